@@ -411,6 +411,18 @@ class Check(Property):
                              f"{gname in other_reg._groups}, known to its own: {gname in made_in._groups}")
             except Exception as exc:  # noqa: BLE001
                 v.append(f"C18 creating the group {gname} in {lbl} of a deep-copied pair raised {type(exc).__name__}: {exc}")
+        # settings held in mutable containers belong to each registry: a preprocessor appended on one side is not seen by the other
+        for made_in, other_reg, lbl in ((b, a, "the copy"), (a, b, "the source")):
+            word = "c18carres" + ("b" if made_in is b else "a")
+            n_other = len(other_reg.preprocessors)
+            made_in.preprocessors.append(lambda s_, w=word: s_.replace(w, "meter**2"))
+            try:
+                other_reg.parse_expression("3 " + word)
+                v.append(f"C18 a preprocessor appended to {lbl} of a deep-copied pair is applied by the other registry too")
+            except Exception:  # noqa: BLE001
+                pass
+            if len(other_reg.preprocessors) != n_other or made_in.preprocessors is other_reg.preprocessors:
+                v.append(f"C18 deep-copied pair: the preprocessors list is shared (appending to {lbl} changed the other's)")
         for r_, lbl in ((a, "source"), (b, "copy")):
             for kind, objs in (("group", r_._groups), ("system", r_._systems)):
                 wrong = [n for n, o in objs.items() if getattr(type(o), "_REGISTRY", r_) is not r_]
